@@ -54,7 +54,8 @@ PIPES = {
 # smaller bound: single executor, deviation bound 1, sequential + thread real pools
 EXTRA_PIPES = {
     "none-elements": {"roots": {"x": ["i"]}, "sizes": S2, "funcs": [
-        {**_f("f", ["x"], {"x": ["i"]}, ["i"], [], ["a"]), "none": True}, _f("g", ["a"], {"a": ["i"]}, ["i"], [], ["c"])]},
+        {**_f("f", ["x"], {"x": ["i"]}, ["i"], [], ["a"]), "none": True},
+        _f("g", ["a", "x"], {"a": ["i"], "x": ["i"]}, ["i"], [], ["c"])]},  # g also takes x[i]: its invocations stay distinguishable
 }
 EXTRA = set(EXTRA_PIPES)
 ALL_PIPES = {**PIPES, **EXTRA_PIPES}
